@@ -259,6 +259,13 @@ def check_sequential(ctx, case):
     final = _validate(ctx, s.log, sets, bpm, kind, True)
     ctx.check(r == {"bpm": final}, "return/final-tempo", lambda: "%r, expected bpm %r" % (r, final))
     _check_observers(ctx, s, obs, mode)
+    # the same sequencer plays the same music again: the second pass emits the same events
+    first = list(s.log)
+    if kind == "bar":
+        ctx.ok("play_Bar", s.play_Bar, mg.build_bar(case["bar"]), 4, bpm)
+    else:
+        ctx.ok("play_Track", s.play_Track, mg.build_track(case["track"]), 4, bpm)
+    ctx.check(s.log[len(first):] == first, "replay/second-pass-differs", lambda: "first pass %d events, second pass %d" % (len(first), len(s.log) - len(first)))
     ctx.note_case(("chord" in f and "rest" in f) or "tempo-change" in f, ["seq:%s" % kind] + ["seq:" + x for x in sorted(f)] + ["obs:" + mode])
 
 
@@ -307,6 +314,10 @@ def check_parallel(ctx, case):
     final = _validate(ctx, log, sets, bpm, kind, False)
     ctx.check(r == {"bpm": final}, "return/final-tempo", lambda: "%r, expected bpm %r" % (r, final))
     _check_observers(ctx, s, obs, mode)
+    if kind == "bars":  # the same sequencer and the same Bar objects once more
+        first = list(s.log)
+        ctx.ok("play_Bars", s.play_Bars, bars, channels, bpm)
+        ctx.check(s.log[len(first):] == first, "replay/second-pass-differs", lambda: "first pass %d events, second pass %d" % (len(first), len(s.log) - len(first)))
     feats = set()
     for t in tracks:
         feats |= SG.features(t)
